@@ -223,7 +223,7 @@ def _bytes_shard(res, pi):
 
 
 LONG_TOKENS = ['a{x:N}', 'a{x:N.5}', 'a{x:0.N}', 'a{x:-Npx}', 'a{x:1eE}', 'a{x:N%}', 'a{A:y}', 'a{x:"A"}', 'a{x:#A}', 'A{x:y}', 'a{x:\\Z41 }', 'a{x:url(A)}',
-               'a{x:A(1)}', '@A x;', 'a{x:U+N}', '@media A{a{x:y}}', 'a{x:y !A}', '/*A*/', 'a{x:rgb(N,N,N)}', 'a{color:rgb(N%,1%,1%)}', 'a{color:hsl(N,N%,N%)}', 'a{color:rgba(1,1,1,N.5)}', 'a{x:f(N)}', 'a{x:f(0.N)}', 'a{x:var(v,N)}', 'a{x:alpha(opacity=N)}', '@media screen and (min-width:Npx){a{x:y}}', 'a{x:f(g(N.5))}', '@page{@top-left{x:N}}', 'a{x:calc(N + N)}', '@page :A{x:y}', '@import "A";',
+               'a{x:A(1)}', '@A x;', 'a{x:U+N}', '@media A{a{x:y}}', 'a{x:y !A}', '/*A*/', 'a{x:rgb(N,N,N)}', 'a{color:rgb(N%,1%,1%)}', 'a{color:hsl(N,N%,N%)}', 'a{color:hsl(0,N,5)}', 'a{color:hsla(N,N,N,N)}', 'a{color:rgb(N%,N,N)}', 'a{color:rgba(1,1,1,N.5)}', 'a{x:f(N)}', 'a{x:f(0.N)}', 'a{x:var(v,N)}', 'a{x:alpha(opacity=N)}', '@media screen and (min-width:Npx){a{x:y}}', 'a{x:f(g(N.5))}', '@page{@top-left{x:N}}', 'a{x:calc(N + N)}', '@page :A{x:y}', '@import "A";',
                '@namespace A "A";', 'a[A=A]{x:y}', 'a:A{x:y}', 'a:nth-child(Nn+N){x:y}', '@variables{A:N}a{x:var(A)}']
 
 
